@@ -326,7 +326,15 @@ fn main() {
         let n_rand = ctx.tier.pick(30_000usize, 2_000_000);
         gens.push(Gen::new("lattice", n_rand, move |ctx, i| {
             let mut rng = Rng::keyed(ctx.seed, "C08lat", 0, i as u64);
-            let (spec, objs) = gen::gen_session(&mut rng, &gen::GenOpts::default());
+            let (mut spec, mut objs) = gen::gen_session(&mut rng, &gen::GenOpts::default());
+            // the property speaks of E-byte slices: RaptorQ with N > 1 sub-blocks interleaves sub-symbols (RFC 6330
+            // section 4.4.1.2) and is outside its statement; N = 1 here (N > 1 is exercised by the delivery checks)
+            spec.oti.n = 1;
+            for o in objs.iter_mut() {
+                if let Some(x) = o.oti.as_mut() {
+                    x.n = 1;
+                }
+            }
             let mut script: Vec<(When, Op)> = (0..objs.len()).map(|k| (When::Start, Op::Add(k))).collect();
             script.push((When::Start, Op::Publish));
             let mut cr = CaseResult::default();
